@@ -586,7 +586,7 @@ def run(cfg):
     # a get or set of the same key in flight while the set is called (c17_concurrent: every schedule up to the bound)
     from . import c17_concurrent
     conc = {}
-    cunits = [(c, cfg.pick(1, 2)) for c in c17_concurrent.configurations(cfg.quick)]
+    cunits = [(c, c.get('bound', cfg.pick(1, 2))) for c in c17_concurrent.configurations(cfg.quick)]
     for part in runner.pmap(c17_concurrent.work, cunits, cfg, chunk=1):
         runner.merge_counts(conc, part)
     rep.extend_violations(conc.get('violations', []))
@@ -609,7 +609,7 @@ def run(cfg):
     sample_trace = [_opname(o) for o in record([('d/x', 0)])]
     rep.coverage = {
         'evaluations': total.get('recoveries', 0) + kill['kill_runs'] + conc.get('conc_recoveries', 0),
-        'concurrent_part': {'configurations': [c['name'] for c, _ in cunits], 'preemption_bound_completed': cfg.pick(1, 2),
+        'concurrent_part': {'configurations': [c['name'] for c, _ in cunits], 'preemption_bound_completed': {c['name']: b for c, b in cunits},
                             'schedules_executed': conc.get('conc_executions', 0),
                             'scheduling_points': conc.get('conc_transitions', 0),
                             'executions_by_preemptions': conc.get('conc_by_preemptions', {}),
